@@ -1189,7 +1189,13 @@ func (e *Engine) valueOf(st *State, x ast.Expr) *Fact {
 	switch v := x.(type) {
 	case *ast.UnaryExpr:
 		if v.Op == token.AND {
-			return &Fact{Nil: 2, Tags: []string{"fresh:addr"}}
+			f := &Fact{Nil: 2, Tags: []string{"fresh:addr"}}
+			if cl, ok := ast.Unparen(v.X).(*ast.CompositeLit); ok {
+				if t := e.Info.TypeOf(cl); t != nil {
+					f.TyIn = []string{"*" + TypeStr(t)} // the dynamic type, should the value end up in an interface
+				}
+			}
+			return f
 		}
 	case *ast.CompositeLit:
 		switch e.Info.TypeOf(v).Underlying().(type) {
